@@ -55,6 +55,18 @@ def kAnd (vs : List Val) : Val :=
 def kOr (vs : List Val) : Val :=
   if vs.any (fun v => (truthy v).isNone) then .null else .bool (vs.any (fun v => truthy v == some true))
 
+/-- `numpy.around(x, k)` for a NEGATIVE whole number of decimals `k` (tens, hundreds, …), half to even; written with
+the scale `p = 1 / 10^|k|` so that it reads like the branch for `k ≥ 0` -/
+def aroundNeg (x k : Rat) : Val :=
+  if k.den == 1 then
+    let p : Rat := 1 / ratPow 10 (-k.num).toNat
+    let y := x * p
+    let f : Int := y.floor
+    let d := y - f
+    let r : Int := if d < 1/2 then f else if d > 1/2 then f + 1 else (if f % 2 == 0 then f else f + 1)
+    .num ((r : Rat) / p)
+  else .null
+
 def scalar (op : String) (args : List ArgV) : Val :=
   let vs := args.map cell
   match op, vs with
@@ -102,7 +114,7 @@ def scalar (op : String) (args : List ArgV) : Val :=
          -- numpy.around: round half to even
          let r : Int := if d < 1/2 then f else if d > 1/2 then f + 1 else (if f % 2 == 0 then f else f + 1)
          .num ((r : Rat) / p)
-       else .null
+       else aroundNeg x k
      | none => .null)
   | "is_null", [a] => .bool a.isNull
   | "is_bad", [a] => .bool a.isNull
